@@ -146,6 +146,16 @@ func c08Transitions() []struct {
 			return Ex(Asg("=", V("y"), &MatchExpr{Subj: one(), Cases: []MatchCase{{Pats: []Expr{N("2")}, Body: N("0")}}}))
 		}},
 		{"surplus and missing arguments", func() Stmt { return Blk(Ex(CallE(V("t0"), N("1"), N("2"))), Ex(CallE(V("two")))) }},
+		// a signal passes through a case that has an EXPRESSION body
+		{"expression-bodied case whose callee executes next", func() Stmt {
+			return Ex(Asg("=", V("y"), Bin("+", N("1"), &MatchExpr{Subj: N("5"), Cases: []MatchCase{{Pats: []Expr{V("x3")}, Body: CallE(V("t9"))}}})))
+		}},
+		{"expression-bodied case around a block case left by next", func() Stmt {
+			return Ex(Asg("=", V("y"), &MatchExpr{Subj: N("5"), Cases: []MatchCase{{Pats: []Expr{V("x4")}, Body: any(Blk(&Next{}))}}}))
+		}},
+		{"expression-bodied case whose callee's match is left by next", func() Stmt {
+			return Ex(Asg("=", V("y"), Arr_(&MatchExpr{Subj: Arr_(N("5")), Cases: []MatchCase{{Pats: []Expr{Arr_(V("x5"))}, Body: CallE(V("t10"))}}})))
+		}},
 	}
 }
 
@@ -199,7 +209,7 @@ func c08ResidueProg(ctx int) *Program {
 	}
 	return &Program{Funcs: funcs, Rules: []*Rule{
 		{Body: Blk(body, Pr(S("done"), V("$")))},
-		{Body: Blk(Pr(S("second"), V("$")), showS("x1", V("x1")), showS("x2", V("x2")), showS("m", V("m")), showS("l0", V("l0")), showS("l9", V("l9")), showS("n", V("n")), showS("a", V("a")))},
+		{Body: Blk(Pr(S("second"), V("$")), showS("x1", V("x1")), showS("x2", V("x2")), showS("x3", V("x3")), showS("x4", V("x4")), showS("x5", V("x5")), showS("m", V("m")), showS("l0", V("l0")), showS("l9", V("l9")), showS("n", V("n")), showS("a", V("a")))},
 		{Kind: "END", Body: Blk(Pr(S("end")))},
 	}}
 }
